@@ -30,7 +30,8 @@ class World:
                        "propagator_reused_without_refinement_argument", "apply_window_not_starting_at_zero",
                        "calculate_twice", "generator_changed_between_calculations", "calculated_with_pure_dephasing",
                        "jit_steps_with_pure_dephasing", "propagator_used_with_gaussian_dephasing_first",
-                       "apply_with_pure_dephasing"]
+                       "apply_with_pure_dephasing", "second_jit_object_created_after_steps_of_the_first",
+                       "two_jit_objects_stepped_alternately", "apply_to_real_typed_state", "apply_to_state_sharing_its_array"]
     required_faults = ["mode_misuse", "refused_dense_setting"]
     components = {
         "real": ["EvolutionSuperOperator: set_dense_dt, calculate, calculate_next(save), at, apply (single time, time axis)",
@@ -85,12 +86,15 @@ class World:
                 ops.append({"op": "set_dense", "n": rng.choice([1, 2, 3, 5, 10]), "which": rng.choice(["all", "jit", "both"])})
             elif k == "next":
                 ops.append({"op": "next", "times": rng.choice([1, 1, 2, 3, 7]), "ctx": rng.random() < 0.25})
+                if rng.random() < 0.3:
+                    ops.append({"op": "next2", "times": rng.choice([1, 1, 2, 3])})
             elif k == "at":
                 ops.append({"op": "at", "k": rng.randrange(64), "which": rng.choice(["all", "jit"])})
             elif k == "apply":
                 ops.append({"op": "apply", "k": rng.randrange(64), "how": rng.choice(["single", "single", "axis", "list", "all", "array"]),
                             "copy": rng.random() < 0.5, "pay": rng.randrange(1 << 30), "ctx": rng.random() < 0.3,
-                            "ctxkind": rng.choice(["ham", "ham", "complex"]), "first": rng.choice([0, 0, 1, 2])})
+                            "ctxkind": rng.choice(["ham", "ham", "complex"]), "first": rng.choice([0, 0, 1, 2]),
+                            "target": rng.choice(["complex", "complex", "real", "shared"])})
             else:
                 ops.append({"op": k})
         return {"N": N, "kind": kind, "Nt": Nt, "dt": dt, "seed": rng.randrange(1 << 30),
@@ -377,8 +381,36 @@ class Runner:
                         check(close(U, A, rtol=0, atol=1e-12 * (1 + k)), "jit-equals-all",
                               lambda: "op %d: jit after %d steps vs all[%d]: %s" % (i, k, k, maxdiff(U, A)))
                         self.ctx.probe("jit_equals_all")
+                if getattr(self, "Ujit2", None) is not None and self.jit2_now >= 0:
+                    self.check_U(numpy.array(self.Ujit2.data), self.jit2_now, 1,
+                                 "op %d: the second 'jit' object (%d steps) after the first one moved" % (i, self.jit2_now))
                 self.ctx.ev(i, kind, st["jit_now"], fingerprint(numpy.array(Ujit.data)))
                 self.ctx.cov(kind, min(st["jit_now"], 8), p["jit_save"], st["jit_dense"])
+            elif kind == "next2":
+                # a SECOND step-by-step superoperator of the same generator, born after the first one may have moved
+                if st["jit_pd"]:
+                    continue
+                if getattr(self, "Ujit2", None) is None:
+                    self.Ujit2 = ESO(time=self.time, ham=self.ham, relt=self.relt, mode="jit")
+                    self.jit2_now = 0
+                    check(numpy.array_equal(numpy.array(self.Ujit2.data), I), "identity-at-zero",
+                          "op %d: a 'jit' superoperator created after %d steps of another one is not the identity at time zero" % (i, st["jit_now"]))
+                    if st["jit_now"] > 0:
+                        self.ctx.probe("second_jit_object_created_after_steps_of_the_first")
+                first_before = numpy.array(Ujit.data).copy()
+                for _ in range(op["times"]):
+                    try:
+                        self.Ujit2.calculate_next()
+                    except Exception as e:
+                        raise Violation("calculate-next-raises", "op %d: second jit object: %s: %s" % (i, type(e).__name__, e))
+                    self.jit2_now += 1
+                    self.check_U(numpy.array(self.Ujit2.data), self.jit2_now, 1, "op %d: second 'jit' object after %d steps" % (i, self.jit2_now))
+                check(numpy.array_equal(first_before, numpy.array(Ujit.data)), "other-object-changed",
+                      "op %d: stepping the second jit superoperator changed the first one" % i)
+                if st["jit_now"] > 0:
+                    self.ctx.probe("two_jit_objects_stepped_alternately")
+                self.ctx.ev(i, kind, self.jit2_now, fingerprint(numpy.array(self.Ujit2.data)))
+                self.ctx.cov(kind, min(self.jit2_now, 6), min(st["jit_now"], 3))
             elif kind == "at":
                 if op["which"] == "all":
                     if not st["all_calc"]:
@@ -468,7 +500,21 @@ class Runner:
         a = g.uniform(-1, 1, size=(N, N)) + 1j * g.uniform(-1, 1, size=(N, N))
         r0 = a @ a.conj().T
         r0 = r0 / numpy.trace(r0).real
-        rho = qr.ReducedDensityMatrix(data=r0.copy())
+        tgt = op.get("target", "complex")
+        other = None
+        if tgt == "real":
+            # a state given by real numbers (real-typed array)
+            r0 = numpy.real(r0).copy()
+            rho = qr.ReducedDensityMatrix(data=r0.copy())
+            r0 = r0.astype(complex)
+            self.ctx.probe("apply_to_real_typed_state")
+        elif tgt == "shared":
+            # two state objects made from one array (rho1 = RDM(data=rho0.data), as in the examples)
+            other = qr.ReducedDensityMatrix(data=r0.copy())
+            rho = qr.ReducedDensityMatrix(data=other.data)
+            self.ctx.probe("apply_to_state_sharing_its_array")
+        else:
+            rho = qr.ReducedDensityMatrix(data=r0.copy())
         # direct propagation with ONE propagator kept for the whole run; its refinement is set the documented way
         # (propagate(..., Nref=n)) whenever the superoperator was calculated with another dense step, and not touched otherwise
         pdon = st["all_calc_pd"]
@@ -551,6 +597,9 @@ class Runner:
             check(close(got, exp, rtol=0, atol=1e-12), "apply-is-contraction", "op %d: apply(t_%d, rho)" % (i, k))
             check(close(got, direct[k], rtol=0, atol=1e-10 * (1 + k)), "apply-reproduces-propagation",
                   lambda: "op %d: apply(t_%d, rho) vs direct propagation: %s" % (i, k, maxdiff(got, direct[k])))
+            if other is not None:
+                check(close(numpy.array(other.data), r0, rtol=0, atol=0), "other-object-changed",
+                      lambda: "op %d: apply(t_%d, rho, copy=%s) changed another state object made from the same array" % (i, k, bool(op["copy"])))
             self.ctx.probe("apply_single_time")
         else:
             try:
